@@ -89,8 +89,15 @@ func (s *Storage) Set(key string, val []byte, exp time.Duration) error {
 			}
 			e.exp = Now() + secs
 		}
-		// fiber hands out strings that alias request buffers; a map-based storage has to own its keys
-		s.m[strings.Clone(key)] = e
+		// fiber hands out strings that alias request buffers; a map-based storage has to own its keys - unless it
+		// models an in-process driver that keeps what it is given (Retain), as gofiber's memory storage does: then it
+		// is the middleware's business to pass a key that stays what it is
+		if s.Retain {
+			delete(s.m, key) // (assigning to an existing key would keep the old key string)
+			s.m[key] = e
+		} else {
+			s.m[strings.Clone(key)] = e
+		}
 	}
 	s.log("set %s %d bytes ttl=%v fail=%v", key, len(val), exp, fail)
 	s.mu.Unlock()
